@@ -132,6 +132,8 @@ def _pool_side(mr, ev, want):
                 return True          # the pool is closed by its caller from here on
             if w.started != n_started + 1 or len(p._pool) != 2:
                 return fail('C11:pool:replacement-not-started')
+            if want == 'admit' and abnormal:
+                return False
         elif e == 1:
             w.adv((0, 5, 11)[nd.draw(0, 2)])
         else:
@@ -153,9 +155,19 @@ def _pool_side(mr, ev, want):
 NEV = tier(3, 4)
 
 
+def _in_part(code):
+    """NPART = 6 parts: the budget (first draw, base 2) x the first event (second draw, base 3) - a sub-interval of the code range"""
+    if NPART <= 1:
+        return True
+    w1 = CODEMAX // 2
+    w2 = w1 // 3
+    off = (PART % 2) * w1 + ((PART // 2) % 3) * w2
+    return off <= code < off + w2
+
+
 def h_pool_side(code: int) -> bool:
     """
-    pre: 0 <= code < CODEMAX
+    pre: 0 <= code < CODEMAX and _in_part(code)
     post: _
     """
     try:
@@ -167,12 +179,15 @@ def h_pool_side(code: int) -> bool:
 
 def h_pool_side_twin(code: int) -> bool:
     """
-    pre: 0 <= code < CODEMAX
+    pre: 0 <= code < CODEMAX and _in_part(code)
     post: _
     """
     try:
         nd = NDCode(code)
-        return _pool_side(1 + nd.draw(0, 1), nd, 'raise')
+        # (a budget of 2 cannot be exceeded by the events left after a first event that is not an exit: the witness of those parts is an
+        # admitted replacement of an abnormally exited worker)
+        reachable = NPART <= 1 or not (PART % 2 == 1 and (PART // 2) % 3 != 0)
+        return _pool_side(1 + nd.draw(0, 1), nd, 'raise' if reachable else 'admit')
     except Prune:
         return True
 
